@@ -30,7 +30,8 @@ enum FaultKind
     FK_STMT = 1,   // F1: k-th statement fails without executing
     FK_TICK = 2,   // F2: interrupt at n-th VM tick
     FK_VFS = 3,    // F3: (method, role, ordinal) VFS call fails
-    FK_MALLOC = 4  // F4: n-th SQLite allocation fails
+    FK_MALLOC = 4, // F4: n-th SQLite allocation fails
+    FK_LOCK = 5    // F9: the second party takes a write lock at the k-th statement boundary and holds it until the call ends
 };
 
 struct FaultSpec
@@ -307,6 +308,8 @@ struct World
     // --- API call bracket
     void begin_call(const FaultSpec& f);
     void end_call(Outcome& o);
+    void contention_prepare(int role);  // F9: open the second party's connection before the call
+    void contention_release();
     template <typename Fn>
     Outcome call(const FaultSpec& f, Fn&& fn);
 
